@@ -79,6 +79,9 @@ type intraProxyStreamSender struct {
 	sourceShardID      history.ClusterShardID
 	streamID           string
 	sourceStreamServer adminservice.AdminService_StreamWorkflowReplicationMessagesServer
+	// shutdown ends the stream (set by Run): pruning the sender must end its stream, or the peer keeps a stream
+	// this side no longer sends on
+	shutdown channel.ShutdownOnce
 }
 
 func (s *intraProxyStreamSender) Run(
@@ -97,6 +100,7 @@ func (s *intraProxyStreamSender) Run(
 	defer st.UnregisterStream(s.streamID)
 
 	s.sourceStreamServer = sourceStreamServer
+	s.shutdown = shutdownChan
 
 	// register this sender so sendMessages can use it
 	s.shardManager.GetIntraProxyManager().RegisterSender(s.peerNodeName, s.targetShardID, s.sourceShardID, s)
@@ -808,6 +812,10 @@ func (m *intraProxyManager) closePeerShardLocked(peer string, ps *peerState, key
 	st := GetGlobalStreamTracker()
 	srvID := BuildIntraProxySenderStreamID(peer, key.targetShard, key.sourceShard)
 	st.UnregisterStream(srvID)
+	if s, ok := ps.senders[key]; ok && s != nil && s.shutdown != nil {
+		// end the stream: the peer's receiver sees EOF and re-opens it once both sides want the pair
+		s.shutdown.Shutdown()
+	}
 	delete(ps.senders, key)
 }
 
